@@ -104,6 +104,9 @@ WITNESSES = {   # the witnesses of Properties_C01.C01_val_implies_ana_refuted, a
     "w_apply_without_operand": '<apply><eq/><ci>x</ci><apply><ci>y</ci></apply></apply>',
     "w_unvalidated_degree": '<apply><eq/><ci>x</ci><apply><root/><degree><apply><divide/><ci>y</ci></apply></degree><ci>y</ci></apply></apply>',
     "w_unvalidated_bvar": '<apply><eq/><apply><diff/><bvar><piecewise/></bvar><ci>x</ci></apply><ci>y</ci></apply>',
+    "w_ci_empty_in_bvar": '<apply><eq/><apply><diff/><bvar><ci/></bvar><ci>t</ci></apply><ci>y</ci></apply>',
+    "w_cn_empty_in_degree": '<apply><eq/><ci>x</ci><apply><root/><degree><cn cellml:units="dimensionless"/></degree><ci>y</ci></apply></apply>',
+    "w_cn_sep_in_degree": '<apply><eq/><ci>x</ci><apply><root/><degree><cn cellml:units="dimensionless"><sep/></cn></degree><ci>y</ci></apply></apply>',
 }
 MATH_OPEN = '<math xmlns="%s" xmlns:cellml="%s">' % (dm.MATHML, dm.CELLML2)
 
